@@ -15,6 +15,8 @@ from vcheck.core import Task, Violation
 ID = 'C15'
 LEVEL = 'exploration'
 BUDGET = {'quick': 40, 'thorough': 360}
+# deterministic sub-checks repeated in a `python -O` child (core.optimized_child)
+OPT_SUBS = ('eui64/errors', 'eui64/inverse-grid', 'hostport/grid', 'hostport/empty', 'urlsplit/examples')
 RULE = ('eui64: 48-bit MACs (0, all ones, every single bit, every single '
         'cleared bit, U/L patterns, random) x IPv6 prefixes (bare address '
         'with empty low half, /0../64 with and without host bits, compressed '
